@@ -19,7 +19,7 @@ namespace BitSerializer
 		{ }
 
 		template <class TValue>
-		std::optional<std::string> operator() (const TValue&, bool isLoaded) const noexcept
+		std::optional<std::string> operator() (const TValue&, bool isLoaded) const
 		{
 			if (isLoaded) {
 				return std::nullopt;
